@@ -72,6 +72,18 @@ pub fn judge(x: &Vec<u8>, st: &mut Stats) -> Verdict {
             Builder::new(x[12], x[13]).write_payload(h.address_bytes())?.write_payload(it)?.build()
         }),
     )?;
+    // c3. from a copy made with clone_from onto a longer owned header (a slot that is refreshed for every connection)
+    check(
+        "raw-from-clone_from-copy",
+        guard(|| {
+            let mut long_bytes = crate::oracle::v2::SIG.to_vec();
+            long_bytes.extend_from_slice(&[0x21, 0x31, 0x01, 0x2c]);
+            long_bytes.extend(crate::engine::fill(0x51, 300));
+            let mut slot = ppp::v2::Header::try_from(&long_bytes[..]).map(|l| l.to_owned()).unwrap_or_else(|_| h.to_owned());
+            slot.clone_from(h);
+            Builder::new(slot.version | slot.command, slot.protocol | slot.address_family()).write_payload(slot.address_bytes())?.write_payload(slot.tlv_bytes())?.build()
+        }),
+    )?;
     // d. decoded items, when the section is well-formed
     if wf && fam != 0 {
         let items: Vec<TypeLengthValue> = match guard(|| h.tlvs().filter_map(|t| t.ok()).collect::<Vec<_>>()) {
@@ -86,6 +98,19 @@ pub fn judge(x: &Vec<u8>, st: &mut Stats) -> Verdict {
                     b = b.write_payload(it)?;
                 }
                 b.build()
+            }),
+        )?;
+        // the same items gathered with for_each (fold-based) instead of collect (next-based)
+        check(
+            "items-for_each",
+            guard(|| {
+                let mut gathered: Vec<TypeLengthValue> = Vec::new();
+                h.tlvs().for_each(|t| {
+                    if let Ok(t) = t {
+                        gathered.push(t)
+                    }
+                });
+                Builder::new(x[12], x[13]).write_payload(h.address_bytes())?.write_payloads(gathered.iter())?.build()
             }),
         )?;
         check("items-batch", guard(|| Builder::new(x[12], x[13]).write_payload(h.address_bytes())?.write_payloads(items.iter())?.build()))?;
